@@ -28,11 +28,19 @@ Failed(e) == {e.checks[i].name : i \in {j \in DOMAIN e.checks : ~e.checks[j].ok}
 
 LossViolations(e) == (Required(e) \ Passed(e)) \cup Failed(e)
 
+\* StopOrder line: a node with e.sess upstream connections was stopped gracefully; e.note is the status its
+\* peer holds for it afterwards and e.status the number of endpoints the peer still holds for it
+StopOrderViolations(e) ==
+  (IF e.note # "left" THEN {"NotifiedStopRoutingAtOnce"} ELSE {})
+  \cup (IF e.status # 0 THEN {"LeftViewsAreEmpty"} ELSE {})
+
 TraceInit == l = 1 /\ viol = {}
 TraceNext ==
   /\ l <= Len(Log)
   /\ l' = l + 1
-  /\ viol' = IF Log[l].op = "Loss" THEN LossViolations(Log[l]) ELSE {}
+  /\ viol' = IF Log[l].op = "Loss" THEN LossViolations(Log[l])
+             ELSE IF Log[l].op = "StopOrder" THEN StopOrderViolations(Log[l])
+             ELSE {}
 TraceSpec == TraceInit /\ [][TraceNext]_tvars
 
 NoStepViolation == viol = {}
